@@ -72,6 +72,15 @@ def dec_value(x, provider=None):
     raise ValueError(k)
 
 
+import copy as _copy
+
+ARG_MUTATIONS = []     # filled by build(): argument objects that a library call changed in place (read and emptied by the checks)
+
+
+def _plain(x):
+    return repr(x)
+
+
 def new_component(name):
     cls = component_factory.get(name.upper())
     if cls is None:
@@ -98,9 +107,20 @@ def build(tree, provider=None, order=None, into=None):
         calls.append([name, [spec], params])
     for name, specs, params in calls:
         if len(specs) > 1:
-            c.add(name, [dec_value(sp, provider) for sp in specs])
+            arg = [dec_value(sp, provider) for sp in specs]
+            before = _copy.deepcopy(arg)
+            c.add(name, arg)
+            if _plain(arg) != _plain(before):
+                ARG_MUTATIONS.append(f"add({name!r}, <list>) changed its argument: {before!r} -> {arg!r}"[:300])
         else:
-            c.add(name, dec_value(specs[0], provider), parameters=dict(params) if params else None)
+            arg = dec_value(specs[0], provider)
+            pa = dict(params) if params else None
+            before, pbefore = _copy.deepcopy(arg), _copy.deepcopy(pa)
+            c.add(name, arg, parameters=pa)
+            if isinstance(arg, (list, dict, tuple)) and _plain(arg) != _plain(before):
+                ARG_MUTATIONS.append(f"add({name!r}, <value>) changed its argument: {before!r} -> {arg!r}"[:300])
+            if pa != pbefore:
+                ARG_MUTATIONS.append(f"add({name!r}, ..., parameters=) changed the caller's dict: {pbefore!r} -> {pa!r}"[:300])
     for s in tree["s"]:
         c.add_component(build(s, provider, into=into))
     return c
